@@ -211,6 +211,9 @@ def check(ck):
         code_e = site.expr("code", 0)
         msg_e = site.expr("message", 1)
         code = site.code()
+        if common.carried_by_exception(site):
+            raise AnalysisError("the Fault of %s takes its code from the exception it handles (`%s`): error codes carried by exception "
+                                "objects are not modelled" % (q.fn(fi), dump(site.expr("code", 0))))
         cls, expected = classify(prog, fi, g, dom, n, c)
         label = "%s: Fault #%d (%s)" % (where, idx, cls or "unclassified")
         if cls is None:
@@ -402,6 +405,10 @@ def check(ck):
     for site in all_sites:
         de = site.arg("data", 4)
         if de is None or de[2] is None or (isinstance(de[2], ast.Constant)):
+            continue
+        if common.json_safe_expr(prog, de[0], de[1], de[2]):
+            ck.ok("C05.4", "%s: Fault(%s) data=%s" % (q.fn(site.fi), site.code(), dump(de[2])[:40]),
+                  "strings / numbers / displays of them only: always serialisable", q.loc(site.fi, site.node))
             continue
         ck.bad("C05.4", "%s: Fault(%s) data=%s" % (q.fn(site.fi), site.code(), dump(de[2])[:40]),
                "the error object carries `%s`, taken from the request as loaded (objects built by the class translator included) and not "
